@@ -41,6 +41,7 @@ type Backend struct {
 	timeout time.Duration
 	mu      sync.Mutex
 	gen     int64 // query generation (atomic): guards kills against hitting a later query
+	running int64 // generation currently executing (atomic), 0 when idle
 }
 
 func startBackend(name string, timeoutMS int) (*Backend, error) {
@@ -211,6 +212,7 @@ func (b *Backend) prepare(asserts []*Term, extra []*Term, want []*Term) (string,
 
 func (b *Backend) exec(script string, want []*Term) (Verdict, map[int]uint64, string) {
 	defer b.mu.Unlock()
+	defer atomic.StoreInt64(&b.running, 0)
 	b.send(script)
 	line, err := b.readLine()
 	for err == nil && line == "" {
@@ -450,7 +452,9 @@ func (p *Portfolio) race(backs []*Backend, asserts, extra, want []*Term) (Verdic
 			return
 		}
 		n++
-		launched[b] = atomic.AddInt64(&b.gen, 1)
+		g := atomic.AddInt64(&b.gen, 1)
+		launched[b] = g
+		atomic.StoreInt64(&b.running, g)
 		go func() {
 			t0 := time.Now()
 			v, m, msg := b.exec(script, w2)
@@ -486,7 +490,7 @@ func (p *Portfolio) race(backs []*Backend, asserts, extra, want []*Term) (Verdic
 		case r = <-ch:
 		case <-hard:
 			for b, g := range launched {
-				if atomic.LoadInt64(&b.gen) == g {
+				if atomic.LoadInt64(&b.running) == g {
 					b.kill()
 				}
 			}
@@ -553,7 +557,7 @@ func (p *Portfolio) drain(ch chan raceRes, rest int, launched map[*Backend]int64
 			p.statMu.Unlock()
 		case <-timer:
 			for b, g := range launched {
-				if !got[b] && atomic.LoadInt64(&b.gen) == g {
+				if !got[b] && atomic.LoadInt64(&b.running) == g {
 					b.kill()
 				}
 			}
